@@ -239,6 +239,22 @@ def hand_packages(rng):
     gp = H.build_new_pkg([t3, q4], ["-opt"], extra_feats=["hand-generic-groups"])
     gp["nexec"] = 12
     out.append(gp)
+    # field types from a package of the same module that the type's file imports under ANOTHER NAME (`domain ".../c/model"`), next
+    # to a std-lib package: which imports the generated file gets must follow from the sources - not from what lies next to the
+    # directory the command happens to be started in (the working-directory legs of this package run from five places)
+    def alias_post(files):
+        f = dict(files)
+        f["t.go"] = f["t.go"].replace('import (\n\t"time"\n)', 'import (\n\t"time"\n\n\tdomain "@MOD@/c/model"\n)')
+        f["model/m.go"] = "package model\n\ntype User struct{ Name string }\n\ntype Tag string\n"
+        return f
+    od = H.hand_struct("Order", [H.hand_field("id"), H.hand_field("owner", "domain.User"), H.hand_field("tags", "[]domain.Tag"),
+                                 H.hand_field("at", "time.Time")])
+    nt = H.hand_struct("Note", [H.hand_field("by", "*domain.User"), H.hand_field("text", "string")])
+    ap = H.build_new_pkg([od, nt], ["-getset", "-json"], extra_feats=["hand-aliased-foreign-import"])
+    ap["files"] = alias_post(ap["files"])
+    ap["postfiles"] = alias_post
+    ap["cwdleg"] = "full"
+    out.append(ap)
     # map with chains of nested embedded pointer structs on both sides (nilCheckWrite: several pointer paths)
     # E1/EE: own field first; H1/HH: the embedded pointer first (the deepest field is met first and pulls ALL its pointer paths
     # out of the map in one range)
@@ -327,7 +343,7 @@ class Dir:
             p = os.path.join(self.path, rel)
             os.makedirs(os.path.dirname(p), exist_ok=True)
             with open(p, "w") as f:
-                f.write(content.replace("@DEST@", "%s/c/dest" % pkgrun.MOD))
+                f.write(content.replace("@DEST@", "%s/c/dest" % pkgrun.MOD).replace("@MOD@", pkgrun.MOD))
 
     def shoot(self, args, cwd=None, env=None, umask=None, via_go_generate=False):
         cmd = [self.ctx.shoot()] + args
@@ -502,6 +518,43 @@ def history(ctx, roots, job):
             l2.shoot(args)
             return {"location": l2.outputs() == fresh[0]}
 
+        def strip_header(out):
+            return {fn: c.split(b"\n", 1)[-1] for fn, c in out.items()}
+
+        def single_cwd(full):
+            # the WORKING DIRECTORY: the same sources and the same command line - with the package directory given as an absolute
+            # [dir] argument - started from the package directory itself, from the module root, from a sibling directory of the
+            # package and from a directory outside the module: identical bytes.  And with a relative [dir] from the module root:
+            # identical to the run inside the package directory below the header line (which quotes the command line)
+            w = Dir(ctx, roots[0], "%s_w" % cid, pk)
+            w.setup()
+            pkgdir, modroot = w.cwd, os.path.dirname(w.path)
+            sib = os.path.join(w.path, "zz_sibling")
+            os.makedirs(sib, exist_ok=True)
+            with open(os.path.join(sib, "zz.go"), "w") as f:
+                f.write("package zzsibling\n")
+            away = ctx.sub("away-from-any-module")
+            places = [("pkgdir", pkgdir), ("modroot", modroot)] + ([("sibling", sib), ("away", away)] if full else [])
+            ref, bad = None, []
+            for kind, wd in places:
+                w.delete_outputs()
+                p = w.shoot(args + [pkgdir], cwd=wd)
+                o = w.outputs() if p.returncode == 0 else {"<failed>": w.log[-1]["stderr"].encode()}
+                if ref is None:
+                    ref = o
+                    if "<failed>" in o:
+                        bad.append("%s: %s" % (kind, w.log[-1]["stderr"][-200:]))
+                elif o != ref:
+                    bad.append("%s differs from pkgdir in %s" % (kind, sorted(fn for fn in set(o) | set(ref) if o.get(fn) != ref.get(fn))))
+            if strip_header(ref) != strip_header(fresh[0]):
+                bad.append("absolute [dir] from the package directory differs below the header from the run without [dir]")
+            if full:
+                w.delete_outputs()
+                p = w.shoot(args + ["./" + os.path.relpath(pkgdir, modroot)], cwd=modroot)
+                if p.returncode != 0 or strip_header(w.outputs()) != strip_header(fresh[0]):
+                    bad.append("relative [dir] from the module root differs below the header from the run inside the package directory")
+            return {"cwd": not bad, "cwd-note": "; ".join(bad)}
+
         # --- plan: one chain per directory ---
         chains = {0: [leg_third], 1: [leg_delete], 2: [leg_grow]}
         if mode == "sep":
@@ -531,6 +584,8 @@ def history(ctx, roots, job):
         futs += [ex.submit(single_clean_shrink, k) for k in range(len(job["shrinks"]))]
         futs += [ex.submit(single_clean_grow, i) for i in range(job["nfresh_edit"])]
         futs.append(ex.submit(single_location))
+        if pk.get("cwdleg") or mode == "sep":
+            futs.append(ex.submit(single_cwd, bool(pk.get("cwdleg"))))
         if mode == "sep":
             futs.append(ex.submit(single_clean_aio))
         if job.get("env"):
@@ -574,6 +629,10 @@ def history(ctx, roots, job):
                                                                " (clean is a prefix of what the stale directory holds)" if fn in st and fn in fk and st[fn] != fk[fn] and st[fn].startswith(fk[fn]) else "")
                 for fn in sorted(set(st) | set(fk)) if st.get(fn) != fk.get(fn))[:400]))
     obs["location"] = part["location"]
+    if "cwd" in part:
+        obs["cwd"] = part["cwd"]
+        if part["cwd-note"]:
+            notes.append("%s working directory: %s" % (cid, part["cwd-note"]))
     obs["cmd"] = "shoot " + " ".join(args)
     obs["fresh0"] = fresh[0]
     obs["notes"] = notes
@@ -641,6 +700,11 @@ def run(ctx, obl):
         else:
             pke, ename = edit_text(pk, rng)
             shr = shrink_text(pk, rng)
+        if pk.get("postfiles"):
+            # hand package whose files are patched after rendering: the edited / shrunk variants get the same patch
+            pke["files"] = pk["postfiles"](pke["files"])
+            for _, q in shr:
+                q["files"] = pk["postfiles"](q["files"])
         res.hist("edits", ename)
         for mode in ["sep", "aio"] + (["star"] if pk.get("star") else []):
             # -type=list: one removed type and the removed member; all-in-one modes: all of them
@@ -718,6 +782,10 @@ def run(ctx, obl):
         for k in ("execs", "delete", "location"):
             im[k] = tf(ob[k])
         extra[cid] = ["execs", "delete", "location"]
+        if "cwd" in ob:
+            im["cwd"] = tf(ob["cwd"])
+            extra[cid].append("cwd")
+            res.hist("cwd-legs", "%s/%s/%s" % (pk["cmd"], mode, "5-places" if pk.get("cwdleg") else "2-places"))
         if cid in env_res:
             for k in ("env", "gogen"):
                 im[k] = tf(env_res[cid][k])
